@@ -138,7 +138,12 @@ func FamilyDyn(maxN int, sampleAbove int, seed int64, remote bool) []*Skeleton {
 	var out []*Skeleton
 	rng := rand.New(rand.NewSource(seed))
 	kinds := []string{"dyn", "plain", "none"}
-	hops := []string{"ref", "allOf", "dynref"}
+	hops := []string{"ref", "allOf", "dynref", "anyOfFail", "ifFail"}
+	entries := []string{"root", "interior"}
+	const decoyID = "http://x/decoy"
+	// the decoy resource declares the dynamic anchor too and always fails: entering it inside a
+	// branch whose failure is absorbed must leave no trace in the dynamic scope
+	decoy := J{"$id": decoyID, "$defs": J{"t": J{"$dynamicAnchor": "T", "const": 999}}, "not": J{}}
 	forms := []string{"frag", "rel", "ptr"}
 	tm := &sx.Tmpl{Depth: 0, MaxLen: 0}
 	marker := func(kind string, k int) J {
@@ -150,16 +155,30 @@ func FamilyDyn(maxN int, sampleAbove int, seed int64, remote bool) []*Skeleton {
 		}
 		return J{"const": k}
 	}
-	var gen func(n int, assign []string, perm []int, hop, form string, rootKind string, remoteIdx int)
-	gen = func(n int, assign []string, perm []int, hop, form string, rootKind string, remoteIdx int) {
-		// resource i has id "http://x/r<i>"; chain: root -> perm[0] -> perm[1] ... -> last
+	var gen func(n int, assign []string, perm []int, hop, form string, rootKind string, remoteIdx int, entry string)
+	gen = func(n int, assign []string, perm []int, hop, form string, rootKind string, remoteIdx int, entry string) {
+		// resource i has id "http://x/r<i>"; chain: root -> perm[0] -> perm[1] ... -> last.
+		// entry "interior": a resource is entered at #/$defs/entry, its root is never evaluated.
 		id := func(i int) string { return fmt.Sprintf("http://x/r%d", i) }
+		target := func(i int) string {
+			if entry == "interior" {
+				return id(i) + "#/$defs/entry"
+			}
+			return id(i)
+		}
+		usesDecoy := false
 		hopTo := func(target string) J {
 			switch hop {
 			case "allOf":
 				return J{"allOf": A{J{"$ref": target}}}
 			case "dynref":
 				return J{"$dynamicRef": target}
+			case "anyOfFail":
+				usesDecoy = true
+				return J{"anyOf": A{J{"$ref": decoyID}, J{"$ref": target}}}
+			case "ifFail":
+				usesDecoy = true
+				return J{"if": J{"$ref": decoyID}, "else": J{"$ref": target}}
 			}
 			return J{"$ref": target}
 		}
@@ -167,17 +186,23 @@ func FamilyDyn(maxN int, sampleAbove int, seed int64, remote bool) []*Skeleton {
 		universe := map[string]string{}
 		for pos, i := range perm {
 			res := J{"$id": id(i), "$defs": J{"t": marker(assign[i], i+1)}}
+			cont := J{}
 			if pos+1 < len(perm) {
-				res = merge(res, hopTo(id(perm[pos+1])))
+				cont = hopTo(target(perm[pos+1]))
 			} else {
 				switch form {
 				case "frag":
-					res["$dynamicRef"] = "#T"
+					cont["$dynamicRef"] = "#T"
 				case "rel":
-					res["$dynamicRef"] = id(i) + "#T"
+					cont["$dynamicRef"] = id(i) + "#T"
 				case "ptr":
-					res["$dynamicRef"] = "#/$defs/t"
+					cont["$dynamicRef"] = "#/$defs/t"
 				}
+			}
+			if entry == "interior" {
+				res["$defs"].(J)["entry"] = cont
+			} else {
+				res = merge(res, cont)
 			}
 			if remote && pos >= remoteIdx {
 				universe[id(i)] = js(res)
@@ -186,8 +211,18 @@ func FamilyDyn(maxN int, sampleAbove int, seed int64, remote bool) []*Skeleton {
 			}
 		}
 		defs["t"] = marker(rootKind, 100)
-		root := merge(J{"$id": "http://x/root", "$defs": defs}, hopTo(id(perm[0])))
+		root := merge(J{"$id": "http://x/root", "$defs": defs}, hopTo(target(perm[0])))
+		if usesDecoy {
+			if remote {
+				universe[decoyID] = js(decoy)
+			} else {
+				defs["decoy"] = decoy
+			}
+		}
 		name := fmt.Sprintf("n%d.%s.root-%s.perm%v.%s.%s", n, strings.Join(assign, "-"), rootKind, perm, hop, form)
+		if entry != "root" {
+			name += "." + entry
+		}
 		if remote {
 			name += fmt.Sprintf(".remote%d", remoteIdx)
 		}
@@ -224,7 +259,12 @@ func FamilyDyn(maxN int, sampleAbove int, seed int64, remote bool) []*Skeleton {
 								// the chain's suffix starting at position ri is supplied by the loader
 								ri = rng.Intn(len(pm))
 							}
-							gen(n, as, pm, hop, form, rk, ri)
+							for _, en := range entries {
+								if en == "interior" && hop == "dynref" {
+									continue // a $dynamicRef with a JSON Pointer fragment is a plain reference: covered by "ref"
+								}
+								gen(n, as, pm, hop, form, rk, ri, en)
+							}
 						}
 					}
 				}
